@@ -263,6 +263,7 @@ def run(ck):
                    "the C test compares return values and a global side-effect counter for fixed argument values",
                    "modelled, not verified: the type kinds the printer rejects (Cannot serialize ...) and the variadic va_list re-insertion path are exercised only end to end"]
     vlib.coq_check_properties(ck, "theories/C16/Properties.v")
+    vlib.coq_check_properties(ck, "theories/C16/NamesProperties.v")
     ok, out = vlib.coq_make(["theories/C16/Exec.vo"])
     if not ok:
         raise TieBroken("coq-build:C16", out)
